@@ -638,11 +638,6 @@ def op_toggle_formula(g, dv, protected):
       return None
     if any(isinstance(v, list) and v and v[0] == "E" for v in cells):
       return None
-    # D0: a frozen column keeps its formula text as a trigger formula. A trigger formula doing a
-    # sorted lookup registers no relation on the lookup helpers, which lets the unsorted map be
-    # cleaned up while the sorted helper survives with a dangling reference (finding F-t).
-    if "lookup" in c.formula or ".all" in c.formula:
-      return None
     return [["ModifyColumn", t.tableId, c.colId, {"isFormula": False}]]
   if not c.isFormula and c.pure not in ("Ref", "RefList"):
     f = gen_formula(g, dv, t, limit_ref=c.ref, kinds=["arith", "str"])
